@@ -82,10 +82,40 @@ func lazyInput(c *C, r *Root) []byte {
 			b = append(b, rec...)
 		}
 	}
+	if c.Rand.Intn(3) == 0 {
+		b = shuffleRecords(c, b)
+	}
 	if c.Rand.Intn(6) == 0 {
 		b, _ = mutateWire(c, b)
 	}
 	return b
+}
+
+// shuffleRecords permutes the top-level records of a well-formed encoding (arbitrary field order on the wire:
+// descending lazy fields, foreign records in between, …).
+func shuffleRecords(c *C, b []byte) []byte {
+	var recs [][]byte
+	for rest := b; len(rest) > 0; {
+		_, _, n := protowire.ConsumeField(rest)
+		if n < 0 {
+			return b
+		}
+		recs = append(recs, rest[:n])
+		rest = rest[n:]
+	}
+	if len(recs) > 12 {
+		// keep most of a long message in place, permute a window
+		i := c.Rand.Intn(len(recs) - 6)
+		w := recs[i : i+6]
+		c.Rand.Shuffle(len(w), func(a, b int) { w[a], w[b] = w[b], w[a] })
+	} else {
+		c.Rand.Shuffle(len(recs), func(a, b int) { recs[a], recs[b] = recs[b], recs[a] })
+	}
+	var out []byte
+	for _, r := range recs {
+		out = append(out, r...)
+	}
+	return out
 }
 
 func observe(r *Root, m protoreflect.Message) map[string]string {
